@@ -161,7 +161,10 @@ func keyFor(w *world, v violation) string {
 }
 
 type runner struct {
-	cur  *only
+	// replayInput (directed tests): what makes --replay reproduce a divergence, instead of the
+	// narrowed behaviour
+	replayInput any
+	cur         *only
 	in   input
 	out  *vh.Result
 	b    []step
@@ -171,7 +174,11 @@ type runner struct {
 }
 
 func (r *runner) newWorld() *world {
-	setCurrent(r.in.narrowed(r.b, r.ns, r.be, r.cur, r.seed))
+	if r.replayInput != nil {
+		setCurrent(r.replayInput)
+	} else {
+		setCurrent(r.in.narrowed(r.b, r.ns, r.be, r.cur, r.seed))
+	}
 	w, err := newWorld(r.in.Consts, r.seed, r.ns, r.be)
 	if errors.Is(err, errOnRealCode) {
 		r.diverge("prune-fails-on-valid-chain", err.Error(), -1, nil, nil, nil)
@@ -184,8 +191,11 @@ func (r *runner) newWorld() *world {
 }
 
 func (r *runner) diverge(key, what string, stepIx int, exp, obs any, o *only) {
-	r.out.Diverge(vh.Divergence{Key: key, What: what, Step: stepIx, Expected: exp, Observed: obs,
-		Input: r.in.narrowed(r.b, r.ns, r.be, o, r.seed)})
+	var in any = r.in.narrowed(r.b, r.ns, r.be, o, r.seed)
+	if r.replayInput != nil {
+		in = r.replayInput
+	}
+	r.out.Diverge(vh.Divergence{Key: key, What: what, Step: stepIx, Expected: exp, Observed: obs, Input: in})
 }
 
 func (r *runner) monitors(w *world, stepIx int, wantFloor int, o *only, phase string) bool {
@@ -381,20 +391,18 @@ func TestPruneConform(t *testing.T) {
 	defer out.Write()
 	defer machinery(out)
 	startDeadline(out, in.DeadlineSec)
-	n, steps := 0, 0
+	// the worlds are independent: a few at a time (results in job order)
+	type jb struct {
+		bi int
+		ns bool
+		be string
+	}
+	var jobs []jb
+	steps := 0
 	for bi, b := range in.Behaviours {
 		for _, ns := range in.NewState {
 			for _, be := range in.Backends {
-				r := &runner{in: in, out: out, b: b, ns: ns, be: be, seed: in.seedFor(bi)}
-				w := r.newWorld()
-				if w == nil {
-					continue
-				}
-				if _, ok := r.play(w, true, nil); ok {
-					r.finale(w, nil)
-				}
-				w.close()
-				n++
+				jobs = append(jobs, jb{bi, ns, be})
 				steps += len(b)
 			}
 		}
@@ -402,10 +410,30 @@ func TestPruneConform(t *testing.T) {
 			out.Sample(vh.J{"conform": opsString(b)})
 		}
 	}
-	out.Count("conform_behaviours", n)
+	parallel(out, len(jobs), workers,
+		func(i int) any {
+			j := jobs[i]
+			return in.narrowed(in.Behaviours[j.bi], j.ns, j.be, nil, in.seedFor(j.bi))
+		},
+		func(i int, sub *vh.Result) {
+			j := jobs[i]
+			r := &runner{in: in, out: sub, b: in.Behaviours[j.bi], ns: j.ns, be: j.be, seed: in.seedFor(j.bi)}
+			w := r.newWorld()
+			if w == nil {
+				return
+			}
+			defer w.close()
+			if _, ok := r.play(w, true, nil); ok {
+				r.finale(w, nil)
+			}
+		})
+	out.Count("conform_behaviours", len(jobs))
 	out.Count("conform_steps", steps)
-	out.Done(n, steps)
+	out.Done(len(jobs), steps)
 }
+
+// workers: independent worlds run a few at a time (the machine is shared with other checks)
+const workers = 4
 
 var ignoreBuckets = map[byte]bool{byte(db.AggregatedBloomFilters): true, byte(db.RunningEventFilter): true}
 
@@ -421,61 +449,76 @@ func TestPruneEnum(t *testing.T) {
 	defer out.Write()
 	defer machinery(out)
 	startDeadline(out, in.DeadlineSec)
-	runs, trials := 0, 0
-	for bi, b := range in.Behaviours {
+	type jb struct {
+		bi int
+		ns bool
+		be string
+	}
+	var jobs []jb
+	for bi := range in.Behaviours {
 		for _, ns := range in.NewState {
 			for _, be := range in.Backends {
-				r := &runner{in: in, out: out, b: b, ns: ns, be: be, seed: in.seedFor(bi)}
-				// the prunes of the behaviour: delivery step -> number of mutations
-				type pr struct{ at, last, muts int }
-				var prunes []pr
-				for i := 0; i < len(b); i++ {
-					if b[i].A.Name == "DeliverHead" || b[i].A.Name == "DeliverL1" {
-						j := i + 1
-						for j < len(b) && b[j].A.Name == "PruneStep" {
-							j++
-						}
-						if j > i+1 {
-							prunes = append(prunes, pr{i, j - 1, b[j-1].Res.Muts})
-						}
-					}
-				}
-				if in.Only != nil {
-					for _, p := range prunes {
-						if p.at == in.Only.Step {
-							r.trial(p.at, p.last, in.Only.K, in.Only.Mode, nil)
-							trials++
-						}
-					}
-					continue
-				}
-				w := r.newWorld()
-				if w == nil {
-					continue
-				}
-				dumps, ok := r.play(w, false, nil)
-				w.close()
-				runs++
-				if !ok {
-					continue
-				}
-				for _, p := range prunes {
-					for k := 1; k <= p.muts; k++ {
-						for _, mode := range []string{"cancel", "crash"} {
-							r.trial(p.at, p.last, k, mode, dumps[p.last])
-							trials++
-							out.Count(mode+"_points", 1)
-						}
-					}
-				}
-				if bi < 2 && ns == in.NewState[0] {
-					out.Sample(vh.J{"enum": opsString(b), "prunes": len(prunes)})
-				}
+				jobs = append(jobs, jb{bi, ns, be})
 			}
 		}
 	}
-	out.Count("enum_sequences", runs)
-	out.Count("interruption_trials", trials)
+	parallel(out, len(jobs), workers,
+		func(i int) any {
+			j := jobs[i]
+			return in.narrowed(in.Behaviours[j.bi], j.ns, j.be, in.Only, in.seedFor(j.bi))
+		},
+		func(i int, sub *vh.Result) {
+			bi, ns, be := jobs[i].bi, jobs[i].ns, jobs[i].be
+			b := in.Behaviours[bi]
+			r := &runner{in: in, out: sub, b: b, ns: ns, be: be, seed: in.seedFor(bi)}
+			// the prunes of the behaviour: delivery step -> number of mutations
+			type pr struct{ at, last, muts int }
+			var prunes []pr
+			for i := 0; i < len(b); i++ {
+				if b[i].A.Name == "DeliverHead" || b[i].A.Name == "DeliverL1" {
+					j := i + 1
+					for j < len(b) && b[j].A.Name == "PruneStep" {
+						j++
+					}
+					if j > i+1 {
+						prunes = append(prunes, pr{i, j - 1, b[j-1].Res.Muts})
+					}
+				}
+			}
+			if in.Only != nil {
+				for _, p := range prunes {
+					if p.at == in.Only.Step {
+						r.trial(p.at, p.last, in.Only.K, in.Only.Mode, nil)
+						sub.Count("interruption_trials", 1)
+					}
+				}
+				return
+			}
+			w := r.newWorld()
+			if w == nil {
+				return
+			}
+			dumps, ok := r.play(w, false, nil)
+			w.close()
+			sub.Count("enum_sequences", 1)
+			if !ok {
+				return
+			}
+			for _, p := range prunes {
+				for k := 1; k <= p.muts; k++ {
+					for _, mode := range []string{"cancel", "crash"} {
+						r.trial(p.at, p.last, k, mode, dumps[p.last])
+						sub.Count("interruption_trials", 1)
+						sub.Count(mode+"_points", 1)
+					}
+				}
+			}
+			if bi < 2 && ns == in.NewState[0] {
+				sub.Sample(vh.J{"enum": opsString(b), "prunes": len(prunes)})
+			}
+		})
+	runs, _ := out.Stats["enum_sequences"].(int)
+	trials, _ := out.Stats["interruption_trials"].(int)
 	out.Done(runs+trials, trials)
 }
 
@@ -779,5 +822,210 @@ func concurrentRound(r *runner, w *world, out *vh.Result, pb int) {
 		}
 		out.Diverge(vh.Divergence{Key: key, What: fmt.Sprintf("[%s] newState=%v, batches of %d: reader concurrent with an in-flight prune of blocks 0..32 (chain 0..36 growing to 39): %s", key, r.ns, pb, detail),
 			Input: vh.J{"concurrent": pb, "newState": r.ns}})
+	}
+}
+
+// ------------------------------------------------------------------ directed boundary scenarios
+// TestPruneWindow: the concretisation of the specification's residues of the oldest retained block
+// modulo the window size on the code's real window (W = core.NumBlocksPerFilter): the real service
+// prunes a chain that straddles block W so that the oldest retained block becomes W-2, W-1, W, W+1
+// (in one batch and in one batch per block, i.e. with every intermediate bound on the way), with
+// the event index
+//
+//	cold      never asked before the prune (the persisted window is not in the query cache)
+//	warm      asked before the prune
+//	lazy      not initialised when the prune runs (restart, prune, first use afterwards)
+//	crash     rebuilt from the database after the prune (restart without a stored snapshot)
+//	graceful  restored from the snapshot a graceful stop writes (no rebuild, cold cache)
+//	step      the prune is preceded by one that stops one block earlier (the bound moves by one)
+//
+// and requires after every batch write that the set of persisted windows is the one the
+// specification's Canonical / EventsCovered demand for the oldest retained block reached (none
+// wholly below it, the window of every retained block below the head's window), and at the end
+// every monitor of the property (event queries against a scan of the twin's receipts included),
+// extension, and reverts back across the boundary down to the oldest retained block.
+type winCase struct {
+	Keep     int    `json:"keep"`
+	PB       int    `json:"pb"`
+	Mode     string `json:"mode"`
+	NewState bool   `json:"newState"`
+	Seed     int64  `json:"seed"`
+}
+
+type winInput struct {
+	NewState    []bool   `json:"newState"`
+	Modes       []string `json:"modes"`
+	Only        *winCase `json:"only,omitempty"`
+	DeadlineSec int      `json:"deadlineSec,omitempty"`
+}
+
+// wantWindows: Prune.tla Canonical / EventsCovered in closed form.
+func wantWindows(oldest, height int) []int {
+	out := []int{}
+	w := int(core.NumBlocksPerFilter)
+	for f := 0; f+w-1 <= height; f += w {
+		if f+w > oldest {
+			out = append(out, f)
+		}
+	}
+	return out
+}
+
+func TestPruneWindow(t *testing.T) {
+	if !vh.Enabled() {
+		t.Skip()
+	}
+	var in winInput
+	if err := vh.Input(&in); err != nil {
+		t.Fatal(err)
+	}
+	out := vh.NewResult()
+	defer out.Write()
+	defer machinery(out)
+	startDeadline(out, in.DeadlineSec)
+	var cases []winCase
+	if in.Only != nil {
+		cases = []winCase{*in.Only}
+	} else {
+		if len(in.NewState) == 0 {
+			in.NewState = []bool{false, true}
+		}
+		if len(in.Modes) == 0 {
+			in.Modes = []string{"cold", "warm", "lazy", "crash", "graceful", "step"}
+		}
+		wb := int(core.NumBlocksPerFilter)
+		i := 0
+		for _, ns := range in.NewState {
+			for _, mode := range in.Modes {
+				for _, pb := range []int{99, 1} {
+					for keep := wb - 2; keep <= wb+1; keep++ {
+						i++
+						cases = append(cases, winCase{keep, pb, mode, ns, vh.Seed()*1000 + int64(i)})
+					}
+				}
+			}
+		}
+	}
+	// the cases are independent worlds: a few at a time, results merged in case order
+	parallel(out, len(cases), workers, func(i int) any { return winInput{Only: &cases[i]} },
+		func(i int, sub *vh.Result) { windowCase(sub, cases[i]) })
+	out.Count("window_cases", len(cases))
+	out.Done(len(cases), len(cases))
+}
+
+func windowCase(out *vh.Result, c winCase) {
+	wb := int(core.NumBlocksPerFilter)
+	k := consts{Base: wb - 8, InitH: wb + 5, MaxH: wb + 8, MaxL1: wb + 10, Retained: 1, PruneBatch: c.PB, L2PerPrune: 1, W: wb}
+	r := &runner{replayInput: winInput{Only: &c}, in: input{Consts: k}, out: out, ns: c.NewState, be: "memory", seed: c.Seed}
+	w := r.newWorld()
+	if w == nil {
+		return
+	}
+	defer w.close()
+	where := fmt.Sprintf("chain %d..%d on the image of a node pruned up to %d, Retained 1, %s, event index %s, newState=%v: oldest retained block -> %d",
+		k.Base, k.InitH, k.Base, map[bool]string{true: "one batch per block", false: "one batch"}[c.PB == 1], c.Mode, c.NewState, c.Keep)
+	bad := func(key, what string, exp, obs any) {
+		r.diverge(key, fmt.Sprintf("[%s] %s: %s", key, where, what), 0, exp, obs, nil)
+	}
+	// the persisted windows demanded for the state of the database a projection shows
+	checkWin := func(p post, when string) bool {
+		want := wantWindows(p.Oldest, p.Height)
+		if eqInts(want, p.Win) {
+			return true
+		}
+		key := "prune-window:persisted-windows-differ"
+		for _, f := range want {
+			found := false
+			for _, g := range p.Win {
+				found = found || g == f
+			}
+			if !found {
+				key = "prune-window:filter-of-retained-blocks-deleted"
+			}
+		}
+		if key == "prune-window:persisted-windows-differ" {
+			for _, g := range p.Win {
+				if g >= 0 && g+wb <= p.Oldest {
+					key = "prune-window:filter-wholly-below-oldest-retained-kept"
+				}
+			}
+		}
+		bad(key, fmt.Sprintf("%s the oldest retained block is %d, the head %d, and the persisted aggregated bloom filter windows start at %v; the blocks %d..%d need %v",
+			when, p.Oldest, p.Height, p.Win, p.Oldest, p.Height, want), want, p.Win)
+		return false
+	}
+	monitors := func(phase string) bool { return r.monitors(w, 0, -1, nil, where+"; "+phase) }
+	prune := func(keep int) bool {
+		if err := w.setL1(keep + k.Retained); err != nil {
+			panic(err)
+		}
+		res := w.deliver("l1", keep+k.Retained, faultkv.Off, 0, true)
+		if res.kind != "ok" {
+			if res.err != nil && strings.Contains(res.err.Error(), "prune engine:") {
+				panic(res.err)
+			}
+			bad("prune-window:prune-fails", fmt.Sprintf("the prune up to %d ends with %s", keep, res.String()), "ok", res.String())
+			return false
+		}
+		for x, p := range res.perMut {
+			if !checkWin(p, fmt.Sprintf("after batch write %d of %d of the prune up to %d", x+1, len(res.perMut), keep)) {
+				return false
+			}
+		}
+		p := w.project()
+		if p.Oldest != keep {
+			bad("prune-window:oldest-retained", fmt.Sprintf("after the prune the oldest retained block is %d", p.Oldest), keep, p.Oldest)
+			return false
+		}
+		return checkWin(p, "after the prune")
+	}
+	if !checkWin(w.project(), "before any prune") {
+		return
+	}
+	switch c.Mode {
+	case "warm":
+		if !monitors("before the prune") {
+			return
+		}
+	case "lazy":
+		if err := w.restart(); err != nil {
+			bad("restart-fails", err.Error(), nil, nil)
+			return
+		}
+	case "step":
+		if !prune(c.Keep - 1) {
+			return
+		}
+	}
+	if !prune(c.Keep) {
+		return
+	}
+	switch c.Mode {
+	case "crash":
+		if err := w.restart(); err != nil {
+			bad("restart-fails", err.Error(), nil, nil)
+			return
+		}
+	case "graceful":
+		if err := w.node.BC.WriteRunningEventFilter(); err != nil {
+			bad("prune-window:graceful-stop-fails", err.Error(), nil, nil)
+			return
+		}
+		if err := w.restart(); err != nil {
+			bad("restart-fails", err.Error(), nil, nil)
+			return
+		}
+	}
+	if !monitors("after the prune") {
+		return
+	}
+	if !checkWin(w.project(), "after the first event queries that follow the prune") {
+		return
+	}
+	// extension, then reverts back across the window boundary down to the oldest retained block
+	r.finale(w, nil)
+	p := w.project()
+	if p.Height == p.Oldest {
+		checkWin(p, "after reverting down to the oldest retained block")
 	}
 }
